@@ -817,7 +817,7 @@ def c20(ctx):
     leaves = ('{VNull, VBool(TRUE), VBool(FALSE), VNum(<<48>>), VNum(<<45, 49, 46, 53, 101, 51>>), VStr(<<>>), VStr(<<233, 128512>>)}')
     a = ctx.mc('access_flat', 'MC_Access', {'Keys': '{<<97>>, <<>>}', 'Leaves': leaves}, {'MaxDepth': 1, 'MaxWidth': 3}, ['Dump', 'ExactlyOneKind'],
                spec='ASpec')
-    a2 = ctx.mc('access_nested', 'MC_Access', {'Keys': '{<<97>>}', 'Leaves': '{VNull, VNum(<<48>>)}'}, {'MaxDepth': 2 if ctx.quick else 3, 'MaxWidth': 2},
+    a2 = ctx.mc('access_nested', 'MC_Access', {'Keys': '{<<97>>}', 'Leaves': '{VNull, VNum(<<48>>)}'}, {'MaxDepth': 2, 'MaxWidth': 2 if ctx.quick else 3},
                 ['Dump', 'ExactlyOneKind'], spec='ASpec')
     ctx.replay([r['out'], a['out'], a2['out']], ['C20.'], extra_args=['--value-kinds', '1'])
     # once more in an unoptimised build (arithmetic overflow is only checked there)
